@@ -90,7 +90,8 @@ static void decode_spec(struct tape *t, struct gm_spec *g)
 	memset(g, 0, sizeof *g);
 	int c10 = !strcmp(PROP, "C10"), c07 = !strcmp(PROP, "C07"), c09 = !strcmp(PROP, "C09"), c08 = !strcmp(PROP, "C08");
 	int c06 = !strcmp(PROP, "C06");
-	g->n_lps = 1 + (3 + t_choice(t, 12)) % 12; /* exhausted tape: 4 LPs */
+	int deep = getenv("RSV_DEEP") && atoi(getenv("RSV_DEEP")); /* thorough tier: wider bounds */
+	g->n_lps = deep ? 1 + (3 + t_choice(t, 40)) % 40 : 1 + (3 + t_choice(t, 12)) % 12; /* exhausted tape: 4 LPs */
 	g->seed = t_u32(t);
 	g->time_mode = (uint8_t)t_choice(t, 3);
 	g->lookahead_mode = (uint8_t)t_choice(t, 3);
@@ -131,7 +132,7 @@ static void decode_spec(struct tape *t, struct gm_spec *g)
 				if(g->rules[r].act[a].kind == GA_SEND && ++sends > 1)
 					g->rules[r].act[a].kind = GA_MEM;
 		}
-	unsigned goal_base = (unsigned[]){20, 5, 60, 150}[t_choice(t, 4)];
+	unsigned goal_base = deep ? (unsigned[]){20, 5, 60, 150, 400, 250}[t_choice(t, 6)] : (unsigned[]){20, 5, 60, 150}[t_choice(t, 4)];
 	/* scenario preset "tick chains" (about one case in six): integer ticks, every LP starts a long zero-delay chain at its
 	 * tick, goals large enough that the LPs stay active - many events share a timestamp on different threads, GVT values
 	 * coincide with event timestamps, and what is committed at exactly the GVT matters */
@@ -178,7 +179,8 @@ static void decode_cfg(struct tape *t, struct rt_cfg *c, const struct gm_spec *g
 	memset(c, 0, sizeof *c);
 	int c10 = !strcmp(PROP, "C10"), c07 = !strcmp(PROP, "C07"), c08 = !strcmp(PROP, "C08");
 	c->serial = c10 ? 1 : (!strcmp(PROP, "C20") && t_prob(t, 30));
-	c->n_threads = 1 + (1 + t_choice(t, 8)) % 8; /* exhausted tape: 2 threads */
+	int deep = getenv("RSV_DEEP") && atoi(getenv("RSV_DEEP"));
+	c->n_threads = deep ? 1 + (1 + t_choice(t, 12)) % 12 : 1 + (1 + t_choice(t, 8)) % 8; /* exhausted tape: 2 threads */
 	if(t_prob(t, 40))
 		c->n_threads = g->n_lps + 1 + t_choice(t, 3) > 8 ? 8 : g->n_lps + 1 + t_choice(t, 3); /* more threads than LPs */
 	c->ckpt_interval = (unsigned[]){0, 1, 2, 3, 5, 8, 64, 1}[t_choice(t, 8)];
